@@ -83,7 +83,14 @@ class Scheduler:
         self.user = u
         self.running = u
 
-    def new_schedule(self, seed=0, policy="random", replay=None, pct_depth=2, pct_len=600, burst=0.8):
+    def call_boundary(self, label=None):
+        """User thread, between two API calls: the OS may pre-empt the user here for any length of time (a scheduling point of its own).
+        Under the 'sweep' policy the user is held back for exactly `hold` scheduling points of the other threads after every boundary and
+        then runs alone as long as it can - a one-preemption sweep over the instants at which the next call can begin."""
+        self.hold_left = getattr(self, "hold", 0)
+        self.point("call")
+
+    def new_schedule(self, seed=0, policy="random", replay=None, pct_depth=2, pct_len=600, burst=0.8, hold=0):
         """Start a fresh schedule (same threads). Call only at a quiescent point from the user thread."""
         self.rng = random.Random(seed)
         self.policy = policy
@@ -95,6 +102,9 @@ class Scheduler:
         self.trace = []
         self.n_points = 0
         self.burst = burst
+        self.hold = int(hold)
+        self.hold_left = 0
+        self.fair = max(40, self.hold + 8)
         self.last = None
         self.task_errors = []
         self.pct_changes = sorted(self.rng.sample(range(1, pct_len), min(pct_depth, pct_len - 1))) if policy == "pct" else []
@@ -185,6 +195,14 @@ class Scheduler:
                 self.replay_diverged = getattr(self, "replay_diverged", 0) + 1
             return cands[0]
         p = self.policy
+        if p == "sweep":
+            users = [t for t in cands if t.is_user]
+            non = [t for t in cands if not t.is_user]
+            if users and (self.hold_left <= 0 or not non):
+                return users[0]
+            if users:
+                self.hold_left -= 1
+            return self.rng.choice(non) if non else cands[0]
         if p == "user_first":
             for t in cands:
                 if t.is_user:
